@@ -12,7 +12,7 @@ PROPERTY = "C17"
 
 META = {
     "bounds": {
-        "quick": "4 base programs x every insertion line x 11 error kinds x 4 kinds of symbolic preamble (2 symbolic characters) x {main file, included file}",
+        "quick": "4 base programs x every insertion line x 11 error kinds x 5 kinds of symbolic preamble (2 symbolic characters) x {main file, included file}",
         "thorough": "same with 3 symbolic characters and two preambles stacked",
     },
     "outside": ["wording of the messages", "parser syntax errors (not in the property's list)", "preambles longer than the bound"],
@@ -72,7 +72,7 @@ def jobs(tier, seed):
     for bi, base in enumerate(BASES):
         for pt in insertion_points(base):
             for ek in ERRORS:
-                for pre in ("linecomment", "blockcomment", "blank", "blockcomment-sameline"):
+                for pre in ("linecomment", "blockcomment", "blank", "blockcomment-sameline", "number-at-eol"):
                     for where in ("main", "included"):
                         if where == "included" and bi not in (0, 2):
                             continue
@@ -94,6 +94,10 @@ def preamble(spec, cx):
             cx.assume(z3.Not(z3.And(_t(x) == ord("*"), _t(y) == ord("/"))))
         return [ord("/"), ord("*")] + body + [ord("*"), ord("/")] + tail
 
+    if pre == "number-at-eol":
+        # valid statements that end in a (symbolic) digit right before the newline
+        dig = list(range(0x30, 0x3A))
+        return [ord(c) for c in ".db 1, "] + [cx.char("c0", dig), 10] + [ord(c) for c in "lda #"] + [cx.char("c1", dig), 10]
     if pre == "linecomment":
         return [ord(";")] + [cx.char(f"c{i}", NONL) for i in range(n)] + [10]
     if pre == "blockcomment":
